@@ -340,6 +340,15 @@ func runC19(r *report.Run) {
 	bigBlock, _ := asmDynamicOp("EmitBytes(300)")
 	hist, trans, st := asmHistorySearch(depth, variants, visit, r, 0, midBase, bigBlock)
 	capCases = st
+	// every instruction method of the emitter that takes no label (two operand patterns each) as a symbol:
+	// all histories of length <= 2 over the alphabet extended by them (backward literal branches after data,
+	// long-operand instructions at the capacity edge, ...)
+	{
+		mo := asmMethodOps()
+		hm, tm, sm := asmHistorySearch(2, variants, visit, r, 0, mo...)
+		hist, trans, capCases = hist+hm, trans+tm, capCases+sm
+		r.Set("method_symbols", len(mo))
+	}
 	// long programs: capacities around a few instruction boundaries spread over the program, every shape
 	for _, v := range variants {
 		for salt, n := range []int{120, 300} {
